@@ -385,39 +385,24 @@ Proof.
     + assert (opa = 0) by lia. subst. repeat split; try lia; try (left; reflexivity).
 Qed.
 
-(* EXPLICIT: OFM = floor((IFM + before + after - k_dilated) / stride) + 1.  Two classes are excluded, and both are
-   defects of the unchanged code (see StripeRefuteProofs): an OFM taller than the IFM (even kernel with full pads), and a
-   kernel smaller than (IFM mod stride, or stride), where needed_total_padding clips and the residue test goes wrong *)
-Lemma explicit_geom_ok H Ho k d s t b pad skirt kw sx W ep :
-  1 <= s -> 1 <= d -> 1 <= k -> 1 <= H -> 0 <= t -> 0 <= b -> t < d * (k - 1) + 1 -> b < d * (k - 1) + 1 ->
-  d * (k - 1) + 1 <= H + t + b -> Ho = (H + t + b - (d * (k - 1) + 1)) / s + 1 -> Ho <= H ->
-  (if H mod s =? 0 then s else H mod s) <= d * (k - 1) + 1 ->
-  p_top ep = t -> p_bottom ep = b ->
-  calc_padding_and_skirt PAD_EXPLICIT kw (d * (k - 1) + 1) sx s H W ep = Some (pad, skirt) ->
-  geom_ok (geom_of H Ho k d s pad skirt) /\ geom_sane (geom_of H Ho k d s pad skirt) /\ p_top pad = t.
+(* calc_explicit_padding (as repaired in /repo 8267dad): the after-padding handed to the hardware is exactly the padding
+   the last filter position needs -- max(0, (out-1)*stride + filter - pad_before - input) with
+   out = (input + pad_before + pad_after - filter) / stride + 1 -- and never more than the PAD operator's pad_after *)
+Lemma calc_explicit_padding_exact_lemma i s f pb pa :
+  0 < s -> 0 < f -> 0 <= pb -> 0 <= pa -> f <= i + pb + pa ->
+  let out := (i + pb + pa - f) / s + 1 in
+  calc_explicit_padding i s f pb pa = (pb, Z.max 0 ((out - 1) * s + f - pb - i)) /\
+  Z.max 0 ((out - 1) * s + f - pb - i) <= pa.
 Proof.
-  intros Hs Hd Hk HH Ht Hb Htk Hbk Hfit HHo HoH Hm Ept Epb Hc.
-  unfold calc_padding_and_skirt in Hc. cbn in Hc. unfold calc_explicit_padding in Hc. rewrite Ept, Epb in Hc.
-  injection Hc as <- <-.
-  set (kd := d * (k - 1) + 1) in *. assert (1 <= kd) by (unfold kd; nia).
-  destruct (ntp_cases H s kd Hs HH) as (q & m & Hq & Hm1 & Hq0 & Hn & _).
-  assert (Hm' : (if H mod s =? 0 then s else H mod s) = m).
-  { destruct (Z.eqb_spec (H mod s) 0) as [E|E].
-    - destruct (Z.eq_dec m s) as [->|Hne]; [reflexivity|]. exfalso.
-      assert (H mod s = m) by (symmetry; apply (Z.mod_unique_pos _ _ q); lia). lia.
-    - destruct (Z.eq_dec m s) as [->|Hne].
-      + exfalso. apply E. replace H with (0 + (q + 1) * s) by lia. rewrite Z.mod_add by lia. apply Z.mod_0_l. lia.
-      + symmetry. apply (Z.mod_unique_pos _ _ q); lia. }
-  rewrite Hm' in Hm. rewrite Hn. rewrite (Z.max_l (kd - m) 0) by lia.
-  pose proof (Z.div_mod (H + t + b - kd) s ltac:(lia)) as Hdm. pose proof (Z.mod_pos_bound (H + t + b - kd) s ltac:(lia)) as Hmb.
-  assert (Hq1 : 0 <= (H + t + b - kd) / s) by (apply Z.div_pos; lia).
-  set (n := (H + t + b - kd) / s) in *. assert (HoN : Ho - 1 = n) by lia.
-  set (x := n * s + kd - t - H).
-  assert (Hx1 : x <= b) by (unfold x; lia). assert (Hx2 : b - s < x) by (unfold x; lia).
-  assert (Hxm : x mod s = (kd - m - t) mod s).
-  { replace x with ((kd - m - t) + (n - q) * s) by (unfold x; nia). apply Z.mod_add. lia. }
-  destruct (explicit_after_spec s (kd - m - t) ltac:(lia) (Z.to_nat b) b Hb ltac:(lia)) as (R1 & R2 & R3).
-  set (r := explicit_after (Z.to_nat b) b s (kd - m - t)) in *.
+  intros Hs Hf Hpb Hpa Hfit. cbv zeta. unfold calc_explicit_padding.
+  pose proof (Z.div_mod (i + pb + pa - f) s ltac:(lia)) as Hdm. pose proof (Z.mod_pos_bound (i + pb + pa - f) s ltac:(lia)) as Hmb.
+  set (n := (i + pb + pa - f) / s) in *. replace (n + 1 - 1) with n by lia.
+  set (x := n * s + f - pb - i).
+  assert (Hx1 : x <= pa) by (unfold x; lia). assert (Hx2 : pa - s < x) by (unfold x; lia).
+  assert (Hxm : x mod s = (f - i - pb) mod s).
+  { replace x with ((f - i - pb) + n * s) by (unfold x; lia). apply Z.mod_add. lia. }
+  destruct (explicit_after_spec s (f - i - pb) Hs (Z.to_nat pa) pa Hpa ltac:(lia)) as (R1 & R2 & R3).
+  set (r := explicit_after (Z.to_nat pa) pa s (f - i - pb)) in *.
   assert (Hr : r = Z.max 0 x).
   { destruct (Z.lt_ge_cases 0 x) as [Hxp|Hxn].
     - assert (x <= r). { destruct (Z.le_gt_cases x r); [assumption|]. exfalso. apply (R3 x); [lia|exact Hxm]. }
@@ -425,13 +410,37 @@ Proof.
       destruct (Z.eq_dec r x) as [->|Hne]; [lia|]. exfalso. apply (mod_neq' r x s); [lia|]. rewrite R2, Hxm. reflexivity.
     - destruct R2 as [R2|R2]; [lia|].
       destruct (Z.eq_dec r 0) as [->|Hne]; [lia|]. exfalso. apply (mod_neq' r x s); [lia|]. rewrite R2, Hxm. reflexivity. }
+  rewrite Hr. split; [reflexivity|lia].
+Qed.
+
+(* EXPLICIT: OFM = floor((IFM + before + after - k_dilated) / stride) + 1.  One class is excluded, a defect of the
+   unchanged code (see StripeRefuteProofs): an OFM taller than the IFM (even kernel with full pads) *)
+Lemma explicit_geom_ok H Ho k d s t b pad skirt kw sx W ep :
+  1 <= s -> 1 <= d -> 1 <= k -> 1 <= H -> 0 <= t -> 0 <= b -> t < d * (k - 1) + 1 -> b < d * (k - 1) + 1 ->
+  d * (k - 1) + 1 <= H + t + b -> Ho = (H + t + b - (d * (k - 1) + 1)) / s + 1 -> Ho <= H ->
+  p_top ep = t -> p_bottom ep = b ->
+  calc_padding_and_skirt PAD_EXPLICIT kw (d * (k - 1) + 1) sx s H W ep = Some (pad, skirt) ->
+  geom_ok (geom_of H Ho k d s pad skirt) /\ geom_sane (geom_of H Ho k d s pad skirt) /\ p_top pad = t.
+Proof.
+  intros Hs Hd Hk HH Ht Hb Htk Hbk Hfit HHo HoH Ept Epb Hc.
+  unfold calc_padding_and_skirt in Hc.
+  change (PAD_EXPLICIT =? PAD_SAME) with false in Hc. change (PAD_EXPLICIT =? PAD_VALID) with false in Hc.
+  change (PAD_EXPLICIT =? PAD_EXPLICIT) with true in Hc. cbv beta iota zeta in Hc. rewrite Ept, Epb in Hc.
+  set (kd := d * (k - 1) + 1) in *. assert (1 <= kd) by (unfold kd; nia).
+  destruct (calc_explicit_padding_exact_lemma H s kd t b ltac:(lia) ltac:(lia) Ht Hb Hfit) as [Ec Ele]. cbv zeta in Ec, Ele.
+  rewrite Ec in Hc.
+  destruct (calc_explicit_padding W sx kw (p_left ep) (p_right ep)) as [l r]. injection Hc as <- <-.
+  pose proof (Z.div_mod (H + t + b - kd) s ltac:(lia)) as Hdm. pose proof (Z.mod_pos_bound (H + t + b - kd) s ltac:(lia)) as Hmb.
+  assert (Hq1 : 0 <= (H + t + b - kd) / s) by (apply Z.div_pos; lia).
+  set (n := (H + t + b - kd) / s) in *. assert (HoN : Ho - 1 = n) by lia.
+  replace (n + 1 - 1) with n in * by lia.
   unfold geom_ok, geom_sane, geom_of, g_kd.
   cbn [g_in g_out g_k g_d g_s g_top g_bottom g_sk_t g_sk_b p_top p_bottom]. fold kd.
-  rewrite HoN. fold r. rewrite Hr. unfold x. clear R3 Hr.
+  rewrite HoN.
   repeat split; lia.
 Qed.
 
-(* satisfiable: PAD (1,1) fused into a 3x3 stride-2 convolution on 8 rows *)
+(* satisfiable: PAD (1,1) fused into a 3x3 stride-2 convolution on 8 rows; and the class the repair covers: 2x2 stride 3 *)
 Example explicit_geom_example :
   exists pad skirt,
     calc_padding_and_skirt PAD_EXPLICIT 3 3 2 2 8 8 {| p_top := 1; p_left := 1; p_bottom := 1; p_right := 1 |} = Some (pad, skirt) /\
